@@ -40,7 +40,7 @@ def rand_model(rng):
     if has_r:
         funcs.append({"name":"next_r","kind":"next","args":["a","r"],"expr":["max",var("a"),var("r")]}); P["next_r"]={}
         if per_filter:
-            funcs.append({"name":"abs_filter","kind":"filter","args":["a","r","_period"],"expr":["or",["le",var("r"),var("a")],["le",var("_period"),const(0)]]})
+            funcs.append({"name":"abs_filter","kind":"filter","args":["a","r","_period"],"expr":["or",["le",var("r"),var("a")],["le",const(1),var("_period")]]})
         else:
             funcs.append({"name":"abs_filter","kind":"filter","args":["a","r"],"expr":["le",["min",var("r"),const(1)],var("a")]})
         P["abs_filter"]={}
